@@ -225,7 +225,8 @@ template <class T> NOINLINE static void mfail(pbt::Ctx& c, const std::string& ke
 template <class T> NOINLINE static void judge(pbt::Ctx& c, int cls, In opkey, const Mx<T>& got, const Mx<T>& want, const Mx<LD>* ex, const Mx<LD>* sc, int K, int mode, const char* metric, In inputs) {
 	if (cls != VC_GENERAL || !ex) {
 		int i = mdiff(c, got, want, mode);
-		if (i >= 0) mfail(c, opkey() + "/" + vcname<T>(cls), i, got, want, inputs());
+		// copies (bit comparison) do not depend on the value class: keyed by operation and element type only
+		if (i >= 0) mfail(c, mode == CMP_BITS ? opkey() : opkey() + "/" + vcname<T>(cls), i, got, want, inputs());
 		return;
 	}
 	if constexpr (VT<T>::flt) {
